@@ -19,7 +19,7 @@ from mirsym.mk import Mk, fld, variant_name
 from framework import Obligation, Violation
 import replay
 from props.c11 import panic_key
-from props import c02
+from props import c02, c04_replay
 
 PROP = 'C04'
 CR = 'zksync_consensus_roles'
@@ -87,6 +87,7 @@ def install(ex):
         agg = deref_all(a[0])
         pairs = [(strip_msg(p.fields[0]), key_index(p.fields[1])) for p in M.as_iter(e, a[1])]
         e.claimed = pairs
+        if not pairs: return err(Opaque('anyhow::Error'))    # blst rejects an aggregate verification over zero messages
         conds = [b_not(agg.junk)]
         # every presented pair must be covered exactly once, every covered pair must be presented
         claimed = {}
@@ -154,26 +155,35 @@ class World:
             cond = z3.And(g == self.g0, e.e == self.e0.e, self.weight(bits) >= self.q, z3.Not(junk), *[covers[i] == bits[i] for i in range(N)])
         else:
             cond = z3.BoolVal(False)
-        return qc, cond, dict(g=g, e=e, v=v, num=num, bits=bits, covers=covers, junk=junk, msg=msg)
+        return qc, cond, dict(g=g, e=e, v=v, num=num, bits=bits, covers=covers, junk=junk, msg=msg, hash=z3.Int(f'{tag}_hash'))
+
+
+def get_info(log):
+    for x in log:
+        if isinstance(x, tuple) and x[0] == 'info': return x[1]
+    return None
 
 
 def classify(rep, res, cond_of, what, N, extra_ok=None):
-    """verify == Ok <=> cond; no panic. Returns list of (key, text, model)."""
+    """verify == Ok <=> cond; no panic. Returns list of (key, text, model, info, expected_ok)."""
     viol = []
     for kind, val, pc, log in res:
+        info = get_info(log)
         if kind == 'panic':
             st, m = solve(pc, None)
-            if st == 'sat': viol.append((panic_key(val), f'{what} panics: {val[0]} at {val[1]}', m))
+            if st == 'sat':
+                exp = z3.is_true(m.eval(info['cond'], model_completion=True)) if info and 'cond' in info else False
+                viol.append((panic_key(val), f'{what} panics: {val[0]} at {val[1]}', m, info, exp))
             continue
         r, cond = val
         rep.nontrivial += 1
         if r.variant == 0:
             st, m = solve(pc, z3.Not(cond))
-            if st == 'sat': viol.append((f'{what}:accepts-invalid', f'{what} returns Ok although the acceptance condition is false (N={N})', m))
+            if st == 'sat': viol.append((f'{what}:accepts-invalid', f'{what} returns Ok although the acceptance condition is false (N={N})', m, info, False))
             elif st != 'unsat': raise Unmodelled('solver unknown')
         else:
             st, m = solve(pc, cond)
-            if st == 'sat': viol.append((f'{what}:rejects-valid', f'{what} returns Err for a genuinely backed certificate (N={N})', m))
+            if st == 'sat': viol.append((f'{what}:rejects-valid', f'{what} returns Err for a genuinely backed certificate (N={N})', m, info, True))
             elif st != 'unsat': raise Unmodelled('solver unknown')
     return viol
 
@@ -191,6 +201,14 @@ def check_commit_verify(rep, db, N, entry):
         if length < 0: length = 0
         qc, cond, s = w.sym_commit_qc('qc', length)
         mk = w.mk
+        info = dict(kind='commit_verify', entry=entry, ws=w.ws, e0=w.e0, g0=w.g0, qc=s)
+        ex.log.append(('info', info))
+        if entry == 'final_block': cond = z3.And(cond, z3.Int('payload_hash') == z3.Int('qc_hash'))
+        if entry == 'replica_timeout_high_qc':
+            g = z3.Int('rt_g'); e = ex.fresh('rt_e'); v = ex.fresh('rt_v')
+            info['rt'] = dict(g=g, e=e, v=v)
+            cond = z3.And(cond, g == w.g0, e.e == w.e0.e)
+        info['cond'] = cond
         if entry == 'commit_qc':
             r = ex.call_by_name(r'.*v2::replica_commit::CommitQC::verify', [Ref(Cell(qc)), w.genesis_arg(), w.epoch_arg(), Ref(Cell(w.sched))])
         elif entry == 'leader_proposal':
@@ -204,12 +222,9 @@ def check_commit_verify(rep, db, N, entry):
         elif entry == 'final_block':
             fb = mk.adt(V + r'v2::block::FinalBlock', payload=Opaque(('payload', 0)), justification=qc)
             r = ex.call_by_name(r'.*v2::block::FinalBlock::verify', [Ref(Cell(fb)), w.genesis_arg(), w.epoch_arg(), Ref(Cell(w.sched))])
-            cond = z3.And(cond, z3.Int('payload_hash') == z3.Int('qc_hash'))
         elif entry == 'replica_timeout_high_qc':
-            g = z3.Int('rt_g'); e = ex.fresh('rt_e'); v = ex.fresh('rt_v')
             rt = mk.adt(V + r'v2::replica_timeout::ReplicaTimeout', view=w.view(g, v, e), high_vote=none(), high_qc=some(qc))
             r = ex.call_by_name(r'.*v2::replica_timeout::ReplicaTimeout::verify', [Ref(Cell(rt)), w.genesis_arg(), w.epoch_arg(), Ref(Cell(w.sched))])
-            cond = z3.And(cond, g == w.g0, e.e == w.e0.e)
         return r, cond
     res = explore(ex, body, budget_s=1500)
     rep.absorb_stats(ex.stats)
@@ -224,25 +239,28 @@ def check_timeout_verify(rep, db, N, G, entry):
         w = World(ex, db, N); mk = w.mk
         g = z3.Int('tq_g'); e = ex.fresh('tq_e'); v = ex.fresh('tq_v'); ex.assume(v.e < 2 ** 63)
         entries = []; conds = [g == w.g0, e.e == w.e0.e]
-        groups = []; cov = []; allbits = []
+        groups = []; cov = []; allbits = []; ginfo = []
+        info = dict(kind='timeout_verify', entry=entry, ws=w.ws, e0=w.e0, g0=w.g0)
+        ex.log.append(('info', info))
         union = [False] * N
         for k in range(G):
             # group k: its own view number (may differ), optional high vote with its own genesis, optional nested certificate (group 0)
             mv = ex.fresh(f'm{k}_v'); ex.assume(mv.e < 2 ** 63)
-            hv = none(); hvc = True
+            hv = none(); hvc = True; hvi = None; hqi = None
             if k > 0 or ex.choose(2, 'hv0') == 0:
-                hg = z3.Int(f'm{k}_hv_g'); he = ex.fresh(f'm{k}_hv_e')
-                hv = some(mk.adt(V + r'v2::replica_commit::ReplicaCommit', view=w.view(hg, ex.fresh(f'm{k}_hv_v'), he), proposal=w.header(ex.fresh(f'm{k}_hv_n'), ('p', k))))
-                hvc = z3.And(hg == w.g0, he.e == w.e0.e)
+                hg = z3.Int(f'm{k}_hv_g'); he = ex.fresh(f'm{k}_hv_e'); hvv = ex.fresh(f'm{k}_hv_v'); hvn = ex.fresh(f'm{k}_hv_n')
+                hv = some(mk.adt(V + r'v2::replica_commit::ReplicaCommit', view=w.view(hg, hvv, he), proposal=w.header(hvn, ('p', k))))
+                hvc = z3.And(hg == w.g0, he.e == w.e0.e); hvi = dict(g=hg, e=he, v=hvv, n=hvn)
             hq = none(); hqc = True
             if k == 0 and ex.choose(2, 'nested') == 0:
-                nq, ncond, _ = w.sym_commit_qc('hq', N)
+                nq, ncond, hqi = w.sym_commit_qc('hq', N)
                 hq = some(nq); hqc = ncond
             msg = mk.adt(V + r'v2::replica_timeout::ReplicaTimeout', view=w.view(g, mv, e), high_vote=hv, high_qc=hq)
             length = N
             if k == G - 1: length = [N, N - 1, N + 1][ex.choose(3, 'len')]
             bits = [z3.Bool(f'm{k}_b{i}') for i in range(length)]
             groups.append(msg); cov.append([z3.Bool(f'm{k}_c{i}') for i in range(N)]); allbits.append(bits)
+            ginfo.append(dict(mv=mv, hv=hvi, hq=hqi, bits=bits, covers=cov[-1]))
             entries.append((msg, mk.tuple_struct(V + r'v2::consensus::Signers', M.BitVecV(bits))))
             if length != N:
                 conds.append(z3.BoolVal(False))
@@ -252,6 +270,7 @@ def check_timeout_verify(rep, db, N, G, entry):
                 union = [b_or(union[i], bits[i]) for i in range(N)]
         junk = z3.Bool('tq_junk')
         conds += [w.weight(union) >= w.q, z3.Not(junk)]
+        info['tq'] = dict(g=g, e=e, v=v, junk=junk, groups=ginfo); info['cond'] = z3.And(*conds)
         tqc = mk.adt(V + r'v2::replica_timeout::TimeoutQC', view=w.view(g, v, e), map=M.MapV(entries, ordered=True), signature=GhostAgg(groups=groups, covers=cov, junk=junk))
         if entry == 'timeout_qc':
             r = ex.call_by_name(r'.*v2::replica_timeout::TimeoutQC::verify', [Ref(Cell(tqc)), w.genesis_arg(), w.epoch_arg(), Ref(Cell(w.sched))])
@@ -283,9 +302,10 @@ def check_commit_add(rep, db, N):
         sig_ok = z3.Bool('sig_ok')
         signed = mk.adt(V + r'msg::Signed', display=r'.*Signed<.*ReplicaCommit>', msg=msg2, key=Opaque(('key', ki)), sig=GhostSig(msg2, Opaque(('key', ki)), sig_ok))
         cell = Cell(qc)
-        r = ex.call_by_name(r'.*v2::replica_commit::CommitQC::add', [Ref(cell), Ref(Cell(signed)), w.genesis_arg(), w.epoch_arg(), Ref(Cell(w.sched))])
         same = z3.And(v2.e == v.e, num2.e == num.e, z3.Int('in_hash') == z3.Int('qc_hash'))
         cond = z3.And(z3.BoolVal(ki < N), z3.Not(bits[ki]) if ki < N else z3.BoolVal(False), sig_ok, same, g == w.g0, e.e == w.e0.e)
+        ex.log.append(('info', dict(kind='commit_add', ws=w.ws, e0=w.e0, g0=w.g0, cond=cond, add=dict(ki=ki, pre=bits, g=g, e=e, v=v, num=num, v2=v2, num2=num2))))
+        r = ex.call_by_name(r'.*v2::replica_commit::CommitQC::add', [Ref(cell), Ref(Cell(signed)), w.genesis_arg(), w.epoch_arg(), Ref(Cell(w.sched))])
         post = fld(fld(cell.v, 'signers'), '0').bits
         pagg = fld(cell.v, 'signature')
         if r.variant == 0:
@@ -302,7 +322,7 @@ def check_commit_add(rep, db, N):
         if kind == 'ok':
             r, cond, state_ok = val
             st, m = solve(pc, z3.Not(state_ok))
-            if st == 'sat': viol.append(('add[commit]:state', f'CommitQC::add leaves a wrong certificate state after returning {"Ok" if r.variant == 0 else "Err"} (N={N})', m))
+            if st == 'sat': viol.append(('add[commit]:state', f'CommitQC::add leaves a wrong certificate state after returning {"Ok" if r.variant == 0 else "Err"} (N={N})', m, get_info(log), r.variant == 0))
             res2.append((kind, (r, cond), pc, log))
         else: res2.append((kind, val, pc, log))
     return viol + classify(rep, res2, None, 'add[commit]', N), len(res)
@@ -335,9 +355,10 @@ def check_timeout_add(rep, db, N):
         sig_ok = z3.Bool('sig_ok')
         signed = mk.adt(V + r'msg::Signed', display=r'.*Signed<.*ReplicaTimeout>', msg=msg2, key=Opaque(('key', ki)), sig=GhostSig(msg2, Opaque(('key', ki)), sig_ok))
         cell = Cell(tqc)
-        r = ex.call_by_name(r'.*v2::replica_timeout::TimeoutQC::add', [Ref(cell), Ref(Cell(signed)), w.genesis_arg(), w.epoch_arg(), Ref(Cell(w.sched))])
         already = z3.Or(*[pre[k][ki] for k in range(G)]) if (ki < N and G) else z3.BoolVal(False)
         cond = z3.And(z3.BoolVal(ki < N), z3.Not(already), sig_ok, v2.e == v.e, g == w.g0, e.e == w.e0.e, hv_ok)
+        ex.log.append(('info', dict(kind='timeout_add', ws=w.ws, e0=w.e0, g0=w.g0, cond=cond, add=dict(ki=ki, G=G, which=which, pre=pre, g=g, e=e, v=v, v2=v2, hg=hg, he=he))))
+        r = ex.call_by_name(r'.*v2::replica_timeout::TimeoutQC::add', [Ref(cell), Ref(Cell(signed)), w.genesis_arg(), w.epoch_arg(), Ref(Cell(w.sched))])
         pmap = fld(cell.v, 'map'); pagg = fld(cell.v, 'signature')
         # post-state: group bitmaps
         def bits_of(tag):
@@ -370,7 +391,7 @@ def check_timeout_add(rep, db, N):
         if kind == 'ok':
             r, cond, state_ok = val
             st, m = solve(pc, z3.Not(state_ok))
-            if st == 'sat': viol.append(('add[timeout]:state', f'TimeoutQC::add leaves a wrong certificate state after returning {"Ok" if r.variant == 0 else "Err"} (N={N})', m))
+            if st == 'sat': viol.append(('add[timeout]:state', f'TimeoutQC::add leaves a wrong certificate state after returning {"Ok" if r.variant == 0 else "Err"} (N={N})', m, get_info(log), r.variant == 0))
             res2.append((kind, (r, cond), pc, log))
         else: res2.append((kind, val, pc, log))
     return viol + classify(rep, res2, None, 'add[timeout]', N), len(res)
@@ -383,10 +404,13 @@ def check_assemble(rep, db, N):
 
     def body(ex):
         w = World(ex, db, N); mk = w.mk
-        msg = mk.adt(V + r'v2::replica_commit::ReplicaCommit', view=w.view(w.g0, ex.fresh('v'), w.e0), proposal=w.header(ex.fresh('num'), z3.Int('hash')))
+        av = ex.fresh('v'); anum = ex.fresh('num')
+        msg = mk.adt(V + r'v2::replica_commit::ReplicaCommit', view=w.view(w.g0, av, w.e0), proposal=w.header(anum, z3.Int('hash')))
         qc = ex.call_by_name(r'.*v2::replica_commit::CommitQC::new', [msg, Ref(Cell(w.sched))])
         cell = Cell(qc)
         chosen = []
+        info = dict(kind='assemble', ws=w.ws, e0=w.e0, g0=w.g0, asm=dict(v=av, num=anum, chosen=chosen))
+        ex.log.append(('info', info))
         for i in range(N):
             if ex.choose(2, f'vote{i}') == 0:
                 chosen.append(i)
@@ -395,6 +419,7 @@ def check_assemble(rep, db, N):
                 if r.variant != 0: raise Panic('add refused an individually valid vote from a new member')
         r = ex.call_by_name(r'.*v2::replica_commit::CommitQC::verify', [Ref(cell), w.genesis_arg(), w.epoch_arg(), Ref(Cell(w.sched))])
         wsum = sum((w.ws[i].e for i in chosen), z3.IntVal(0))
+        info['cond'] = wsum >= w.q
         return r, wsum >= w.q
     res = explore(ex, body, budget_s=1200)
     rep.absorb_stats(ex.stats)
@@ -415,11 +440,19 @@ def run(rep, db, tier, seed):
         t0 = time.time()
         try:
             viol, npaths = fn(rep, db, *args)
-            for key, text, m in viol:
+            for key, text, m, info, expected in viol:
                 if key in seen: seen[key] += 1; continue
                 seen[key] = 1
                 wit = witness_text(m)
-                rep.violation(Violation(PROP, key, text + ' | ' + wit, None, None))
+                path = None; reproduced = None
+                try:
+                    src = c04_replay.gen(info['kind'], m, info, expected)
+                    rr = replay.run_replay(f'c04_{len(seen)}', src); rep.replayed += 1
+                    path = rr['path']; reproduced = rr['reproduced']
+                    if reproduced is None: rep.add(Obligation('replay', 'inconclusive', 'replay harness failed: ' + rr['output'][-1500:]))
+                except Exception as ex_:
+                    rep.add(Obligation('replay', 'inconclusive', f'replay generation failed: {type(ex_).__name__}: {ex_}'))
+                rep.violation(Violation(PROP, key, text + ' | ' + wit, path, reproduced is True))
             rep.add(Obligation(name, 'violated' if viol else 'discharged', paths=npaths, wall_s=round(time.time() - t0, 1)))
             if len(rep.samples) < 8: rep.samples.append(f'{name}: {npaths} feasible paths, verify==Ok <=> acceptance condition decided on each')
         except Unmodelled as u:
